@@ -4,7 +4,7 @@ import datetime
 from vf import rt, scen, world as W
 from vf.commands import C
 from vf.runner import CH
-from harness import common as K
+from harness import common as K, kpair
 
 PARTITION = None
 MOD = 'harness.c20'
@@ -22,6 +22,7 @@ META = {
 
 PREFIX = ['Path=', 'DeletionDate=', '[Trash Info]', ' Path=', 'X=', '', 'path=', 'Path =', 'DeletionDate=2020-01-01T00:00:00']
 
+VLEN = 2
 UNQ = []
 STRP = []
 
@@ -41,12 +42,16 @@ class _FakeDT(object):
             return ('date', text)
 
 
-def k_parsers(p0: int, v0: str, p1: int, v1: str, p2: int, v2: str) -> str:
+PREFIX2 = ['Path=', 'DeletionDate=', 'X=', '']
+CVALS = [('a',), ('b!',), ('',), ('/x y',)]
+
+
+def k_parsers(p0: int, v0: str, p1: int, c1: int, p2: int, c2: int, pos: int) -> str:
     """
-    pre: PARTITION is None or p0 == PARTITION
-    pre: 0 <= p0 < 9 and 0 <= p1 < 9 and 0 <= p2 < 9
-    pre: len(v0) <= 2 and len(v1) <= 2 and len(v2) <= 2
-    pre: chr(10) not in v0 and chr(10) not in v1 and chr(10) not in v2
+    pre: PARTITION is None or (p0 == PARTITION[0] and pos == PARTITION[1] and c1 < PARTITION[2] and c2 < PARTITION[2])
+    pre: 0 <= p0 < 9 and 0 <= p1 < 4 and 0 <= p2 < 4 and 0 <= c1 < 4 and 0 <= c2 < 4 and 0 <= pos < 3
+    pre: len(v0) <= VLEN
+    pre: chr(10) not in v0
     post: _ == ''
     """
     rt.begin()
@@ -56,8 +61,16 @@ def k_parsers(p0: int, v0: str, p1: int, v1: str, p2: int, v2: str) -> str:
     from trashcli.parse_trashinfo.parse_deletion_date import parse_deletion_date
     from trashcli.parse_trashinfo.maybe_parse_deletion_date import maybe_parse_deletion_date, unknown_date
     # (CrossHair 0.0.110 mis-evaluates concatenation with a concrete empty string: avoid it)
-    pf = [PREFIX[rt.sel(p0, 9)], PREFIX[rt.sel(p1, 9)], PREFIX[rt.sel(p2, 9)]]
-    lines = [v if p == '' else p + v for p, v in zip(pf, (v0, v1, v2))]
+    # one line carries a symbolic value (any string), the other two values come from a table; the symbolic
+    # line is the first, second or third one (pos)
+    pf = [PREFIX[rt.sel(p0, 9)], PREFIX2[rt.sel(p1, 4)], PREFIX2[rt.sel(p2, 4)]]
+    vals = [v0, CVALS[rt.sel(c1, 4)][0], CVALS[rt.sel(c2, 4)][0]]
+    lines = [v if p == '' else (p if v == '' else p + v) for p, v in zip(pf, vals)]
+    k = rt.sel(pos, 3)
+    if k == 1:
+        lines = [lines[1], lines[0], lines[2]]
+    elif k == 2:
+        lines = [lines[1], lines[2], lines[0]]
     content = lines[0] + '\n' + lines[1] + '\n' + lines[2] + '\n'
     s_unq, s_unq2, s_dt = pp.unquote, pt.unquote, pt.datetime
     pp.unquote = _rec_unquote
@@ -126,7 +139,7 @@ def k_parsers(p0: int, v0: str, p1: int, v1: str, p2: int, v2: str) -> str:
 
 
 # --------------------------------------------------------------------------- W
-TDK = ['home-on-root', 'home-own-volume', 'top', 'alt', 'trash-dir-opt']
+TDK = ['home-on-root', 'home-own-volume', 'top', 'alt', 'trash-dir-opt', 'trash-dir-opt-through-a-link-on-another-volume']
 SHAPES = ['abs', 'rel', 'rel-escaped', 'abs-escaped', 'dup-path', 'dup-date', 'extra-keys', 'no-header', 'crlf', 'trailing-space',
           'rel-dotdot', 'plus-sign', 'date-first']
 NOW = '2020-06-15T12:00:00'
@@ -201,13 +214,21 @@ def _case(tdk, sk):
         elif t == 'alt':
             td, topdir = '/v/.Trash-1000', '/v'
             base_abs, base_rel = '/v/w', 'w'
-        else:
+        elif t == 'trash-dir-opt':
             td, topdir = '/v/custom/td', '/v'
             base_abs, base_rel = '/v/w', 'w'
             extra_args = ['--trash-dir', td]
+        else:
+            # --trash-dir spelled through a symlink that lives on the root volume: every command must take the same
+            # volume for it (trash-cli takes the volume of the spelling, '/'; the spec does not cover --trash-dir)
+            td, topdir = '/v/custom/td', '/'
+            base_abs, base_rel = '/v/w', 'v/w'
+            extra_args = ['--trash-dir', '/h/lt']
         text, pval, dtext = shape(sk, base_abs, base_rel)
         nodes = [W.d(home), W.d('/v/.Trash', 0o1777), W.d(base_abs), W.f('/v/keep', 'KEEP', 0o644, 800)]
         nodes += K.trashed(td, 'e', None, None, 'file', 2000, raw_info=text)
+        if t.startswith('trash-dir-opt-through'):
+            nodes.append(W.l('/h/lt', td, 811))
         world = W.W(mounts=mounts, cwd='/', nodes=nodes)
         e = scen.env(home=home)
         label = '%s:%s' % (t, SHAPES[sk])
@@ -249,7 +270,7 @@ def _case(tdk, sk):
             if scen.sub(r[1], norm) is None:
                 return rt.fail('C20:restore-target-differs:' + label, 'restored somewhere else than %r; stderr %r' % (l_path, r[0]['err'][-200:]))
         # 4. trash-rm: the exact path matches, a different one does not (only for names free of glob characters)
-        if t != 'trash-dir-opt' and not any(ch in l_path for ch in '*?['):
+        if not t.startswith('trash-dir-opt') and not any(ch in l_path for ch in '*?['):
             m4, r = scen.run_model(world, [C('rm', [l_path + 'x'], e, cwd='/'), {'snap': '/'}])
             if scen.sub(r[1], td + '/files/e') is None:
                 return rt.fail('C20:rm-removed-on-other-path:' + label, '')
@@ -270,19 +291,19 @@ def _case(tdk, sk):
 
 def w_main(tdk: int, sk: int) -> str:
     """
-    pre: 0 <= tdk < 5 and 0 <= sk < 13
+    pre: 0 <= tdk < 6 and 0 <= sk < 13
     post: _ == ''
     """
-    return _case(rt.sel(tdk, 5), rt.sel(sk, 13))
+    return _case(rt.sel(tdk, 6), rt.sel(sk, 13))
 
 
 def obligations(tier):
-    return [
+    return kpair.obligations(tier) + [
         CH('K_parsers_agree_all_contents', MOD, 'k_parsers', timeout=600 if tier == 'quick' else 2400, engine='K', regime='traced',
            encodes=['parse_path', 'parse_original_location', 'ParseTrashInfo.parse_trashinfo', 'parse_deletion_date', 'maybe_parse_deletion_date'],
            stubs=['unquote -> recorder', 'datetime.strptime -> recorder'],
-           bounds='3 lines, each = one of 9 prefixes (symbolic) + any value of len<=2 without newline',
-           partitions=list(range(9))),
+           bounds='3 lines in every order: one = one of 9 prefixes + ANY value of len<=2 without newline, two = one of 4 prefixes + one of %d values' % (2 if tier == 'quick' else 4),
+           partitions=[(a, b, 2 if tier == 'quick' else 4) for a in range(9) for b in range(3)]),
         CH('W_dirkind_x_shape', MOD, 'w_main', timeout=600, engine='W', regime='selector',
            encodes=K.LIST_FUNCS + K.RESTORE_FUNCS + K.RM_FUNCS + K.EMPTY_FUNCS, stubs=K.STUBS,
            bounds='5 kinds of trash directory x 13 content shapes; per case 8 command runs'),
